@@ -45,7 +45,7 @@ import (
 const (
 	numWorkers   = 16
 	dropWait     = 150 * time.Millisecond // length of a real loss (1 in 5 silent attempts); no decision hangs on it
-	longWait     = 15 * time.Second
+	longWait     = 8 * time.Second
 	maxTries     = 3                      // a history the harness could not record is run again
 	eraBoundary  = int64(2085978496)      // 2036-02-07T06:28:16Z, start of NTP era 1
 	maxThetaSecs = int64(60 * 365 * 86400)
@@ -220,7 +220,7 @@ func runWorker(a lib.Args, wi int) {
 		if !okRun {
 			stat.dropped++
 		}
-		if stat.dropped >= 8 && stat.dropped*2 > stat.histories {
+		if stat.dropped >= 3 && stat.dropped*2 > stat.histories {
 			// most histories cannot be recorded: more of them will not change the verdict
 			fmt.Printf("NOTE worker %d gave up after %d histories, %d of them not recordable\n", wi, stat.histories, stat.dropped)
 			break
